@@ -86,6 +86,9 @@ class _DTMeta(type(_REAL_DATETIME)):
     def __instancecheck__(cls, inst) -> bool:  # real datetimes created before patching count too
         return isinstance(inst, _REAL_DATETIME)
 
+    def __subclasscheck__(cls, sub) -> bool:  # CrossHair: isinstance(x, T) == issubclass(type(x), T)
+        return sub is _REAL_DATETIME or type.__subclasscheck__(cls, sub) or (getattr(sub, "__name__", "") == "datetime" and hasattr(sub, "isoformat"))
+
 
 class FakeDateTime(_REAL_DATETIME, metaclass=_DTMeta):
     @classmethod
